@@ -47,6 +47,11 @@ package file_storage
 
 // Reading from offset k: exactly the first k lines are passed over undecoded, every later line is decoded
 // (and returned unless it is on an ignore list), and a successful call has consumed the whole file.
+// GetMessages decodes every line into one reused variable: a record must therefore overwrite every field of the
+// previous one (every field always written, none merged), and survive the file round trip unchanged
+//@ import storage "github.com/lidofinance/dc4bc/storage"
+//@ jsonoverwrite[C16.read.fresh] storage.Message
+//@ roundtrip[C16.read.roundtrip] storage.Message
 //@ func (*FileStorage).GetMessages
 //@   nosafety
 //@   requires fs != nil && $flen >= 0 && offset >= 0
